@@ -43,6 +43,22 @@ def setup():
   def consumer(p=None):
     return p
 
+  class OddRepr:
+    """A callable configurable whose repr is full of format metacharacters."""
+    def __call__(self):
+      raise CURRENT[0]
+
+    def __repr__(self):
+      return "<OddRepr {'limit': 7} {0} {} %s %(x)d {name!r} \\n {{>"
+  global ODD, ODD_PARTIAL
+  ODD = gin.external_configurable(OddRepr(), name='odd_repr', module='c17')
+  import functools  # pylint: disable=import-outside-toplevel
+
+  def _raise_with(opts, fmt='{}'):
+    raise CURRENT[0]
+  ODD_PARTIAL = gin.external_configurable(functools.partial(_raise_with, {'limit': 7, 'fmt': '%s {0}'}),
+                                          name='odd_partial', module='c17')
+
   @gin.configurable(module='c17')
   def annotating_mid():
     """Catches what the inner configurable raised, annotates THAT exception object and re-raises it."""
@@ -198,7 +214,7 @@ def builtin_factories():
 
 
 FACTORIES = {}
-SITES = ['body', 'reference', 'scoped_reference', 'in_scope_body']
+SITES = ['body', 'reference', 'scoped_reference', 'in_scope_body', 'odd_repr_callable', 'odd_repr_partial']
 DEPTHS = [1, 2, 3]
 
 
@@ -270,7 +286,12 @@ def check_one(cname, site, depth, res, desc):
   names = {1: ['raiser'], 2: ['raiser', 'mid'], 3: ['raiser', 'mid', 'outer']}[depth]
   scope = ''
   try:
-    if site == 'body':
+    if site in ('odd_repr_callable', 'odd_repr_partial'):
+      names = ['odd_repr' if site == 'odd_repr_callable' else 'odd_partial']
+      scope = 'sc'
+      with gin.config_scope('sc'):
+        (ODD if site == 'odd_repr_callable' else ODD_PARTIAL)()
+    elif site == 'body':
       fn()
     elif site == 'in_scope_body':
       scope = 'sc/inner'
@@ -320,7 +341,7 @@ def check_one(cname, site, depth, res, desc):
   while tb is not None:
     last = tb.tb_frame.f_code.co_name
     tb = tb.tb_next
-  if last != 'raiser':
+  if last not in ('raiser', '__call__', '_raise_with'):
     res.violation('traceback_lost', '%r: traceback ends in %r, not in the raising frame' % (desc, last), desc)
     return
   res.w('traceback_kept')
